@@ -163,8 +163,8 @@ pub fn make_streams(ctx: &mut Ctx, n_each: usize) -> Vec<S13> {
 /// streams whose plaintext laps the 32 KiB window several times; the caller re-offers what was
 /// not consumed followed by a new chunk. Every call is replayed by the Lean model.
 pub fn bytes_sessions(ctx: &mut Ctx) {
-    let mut streams: Vec<(Vec<u8>, bool, &'static str, usize, Option<Vec<u8>>)> = vec![];
-    for s in make_streams(ctx, 2 * ctx.scale.max(1)) { let pl = if s.kind == "valid" || s.kind == "trailing" { Some(s.plain.clone()) } else { None }; streams.push((s.z, s.zlib, s.kind, 0, pl)); }
+    let mut streams: Vec<(Vec<u8>, bool, &'static str, usize, Option<Vec<u8>>, Option<usize>)> = vec![];
+    for s in make_streams(ctx, 2 * ctx.scale.max(1)) { let ok = s.kind == "valid" || s.kind == "trailing"; let pl = if ok { Some(s.plain.clone()) } else { None }; streams.push((s.z, s.zlib, s.kind, 0, pl, if ok { Some(s.enc_len) } else { None })); }
     // plaintexts that lap the window: the library's own compressor at levels 0 (stored), 1 and 6
     for k in 0..(3 * ctx.scale.max(1)) {
         let kind = *ctx.rng.pick(&["words", "random", "runs", "text4"]);
@@ -173,16 +173,20 @@ pub fn bytes_sessions(ctx: &mut Ctx) {
         let level = [0u8, 1, 6][k % 3];
         let zlib = ctx.rng.chance(1, 2);
         let z = if zlib { miniz_oxide::deflate::compress_to_vec_zlib(&plain, level) } else { miniz_oxide::deflate::compress_to_vec(&plain, level) };
-        streams.push((z, zlib, "laps", 0, Some(plain)));
+        // every other one is followed by unrelated bytes: the stream must end at its own last byte
+        let enc = z.len();
+        let mut z = z;
+        if k % 2 == 1 { let extra = ctx.rng.range(1, 40); z.extend(ctx.rng.bytes(extra)); }
+        streams.push((z, zlib, "laps", 0, Some(plain), Some(enc)));
     }
     // a stored block that starts within a few bytes of the end of the window (the parked-byte exits)
     for k in 0..(4 * ctx.scale.max(1)) {
         let zlib = k % 2 == 1;
         let head = 32768 - ctx.rng.range(0, 6);
         let (z, past) = sgen::window_edge_stream(&mut ctx.rng, zlib, head);
-        streams.push((z, zlib, "edge", past, None));
+        streams.push((z, zlib, "edge", past, None, None));
     }
-    for (z, zlib, kind, past, plain) in streams {
+    for (z, zlib, kind, past, plain, enc) in streams {
         // the first-call Finish shortcut, with room around the plaintext size
         {
             let full = miniz_oxide::inflate::decompress_to_vec_with_limit(if zlib && z.len() >= 2 { &z[2..] } else { &z[..] }, 1 << 20).map(|v| v.len()).unwrap_or(300);
@@ -199,7 +203,7 @@ pub fn bytes_sessions(ctx: &mut Ctx) {
         }
         for rep in 0..(if ctx.quick() { 3 } else { 6 }) {
             let seed = ctx.rng.next();
-            ifb_session(ctx, &z, zlib, kind, past, plain.as_deref(), rep, seed);
+            ifb_session_enc(ctx, &z, zlib, kind, past, plain.as_deref(), rep, seed, enc);
         }
     }
 }
@@ -207,10 +211,16 @@ pub fn bytes_sessions(ctx: &mut Ctx) {
 /// One byte-level session; every schedule choice comes from `seed`, so the session replays exactly
 /// (`IFBS` replay line). `plain` (when the stream is known to be valid): native oracle — delivered bytes
 /// are a prefix of it after every call, equal to it at stream end, never a data error.
-pub fn ifb_session(ctx: &mut Ctx, z: &[u8], zlib: bool, kind: &str, past: usize, plain: Option<&[u8]>, rep: usize, seed: u64) {
+pub fn ifb_session(ctx: &mut Ctx, z: &[u8], zlib: bool, kind: &str, past: usize, plain: Option<&[u8]>, rep: usize, seed: u64) { ifb_session_enc(ctx, z, zlib, kind, past, plain, rep, seed, None) }
+
+/// the same with the encoded length of the (valid) stream that starts `z` known (`enc`): native oracle —
+/// at the first stream end the calls together have consumed exactly `enc` bytes (C06 / C13), and never
+/// more than that before
+pub fn ifb_session_enc(ctx: &mut Ctx, z: &[u8], zlib: bool, kind: &str, past: usize, plain: Option<&[u8]>, rep: usize, seed: u64, enc: Option<usize>) {
     let mut rng = crate::rng::Rng::new(seed);
     let id = ctx.id();
-    let replay = format!("IFBS zlib={} kind={} past={} rep={} seed={} plain={} data={}", zlib as u8, kind, past, rep, seed, plain.map(|p| hex(p)).unwrap_or("?".into()), hex(z));
+    let replay = format!("IFBS zlib={} kind={} past={} rep={} seed={} enc={} plain={} data={}", zlib as u8, kind, past, rep, seed, enc.map(|e| e.to_string()).unwrap_or("?".into()), plain.map(|p| hex(p)).unwrap_or("?".into()), hex(z));
+    let mut consumed_total = 0usize;
     ctx.line(&format!("IFBNEW id={} zlib={}", id, zlib as u8));
     let mut st = InflateState::new_boxed(if zlib { DataFormat::Zlib } else { DataFormat::Raw });
     let mut fed = 0usize;       // bytes of z handed to the caller's buffer so far
@@ -240,6 +250,12 @@ pub fn ifb_session(ctx: &mut Ctx, z: &[u8], zlib: bool, kind: &str, past: usize,
         ctx.line(&format!("IFB id={} in={} room={} c={} out={} st={} last={}", id, hex(new), room, r.bytes_consumed, hex(&out[..r.bytes_written]), code, last_inner));
         ctx.count("ifb_calls"); ctx.count(&format!("ifb_{}_{}", kind, code));
         delivered.extend_from_slice(&out[..r.bytes_written]);
+        consumed_total += r.bytes_consumed;
+        if let Some(e) = enc {
+            if consumed_total > e { ctx.violation(id, "consumed", format!("[session style {}] call #{}: {} bytes consumed in total, the stream is {} bytes long (bytes after the stream were consumed)", style, call + 1, consumed_total, e), replay.clone()); break; }
+            if r.status == Ok(MZStatus::StreamEnd) && consumed_total != e { ctx.violation(id, "consumed", format!("[session style {}] call #{}: stream end with {} bytes consumed in total, the stream is {} bytes long", style, call + 1, consumed_total, e), replay.clone()); break; }
+            ctx.count("ifb_enc_checked_calls");
+        }
         if let Some(p) = plain {
             if delivered.len() > p.len() || delivered[..] != p[..delivered.len()] {
                 ctx.violation(id, "prefix", format!("[session style {} room {}] call #{}: {} delivered bytes are not a prefix of the plaintext (first mismatch at {})", style, room, call + 1, delivered.len(), delivered.iter().zip(p.iter()).position(|(a, b)| a != b).unwrap_or(p.len())), replay.clone());
@@ -265,13 +281,19 @@ fn report(ctx: &mut Ctx, s: &S13, actions: &[usize], seed: u64, problems: Vec<(S
     for (cl, m) in problems { ctx.violation(id, &cl, format!("[{} zlib={} actions={}] {}", s.kind, s.zlib, actions.iter().map(|&a| action_name(a)).collect::<Vec<_>>().join(" "), m), replay.clone()); }
 }
 
+/// replay of recorded byte-level sessions (`IFBS` lines)
+pub fn replay_ifbs(ctx: &mut Ctx, lines: &[String]) {
+    for l in lines { if let Some(rest) = l.strip_prefix("IFBS ") { let kv = crate::kv(rest);
+        let z = crate::tx::unhex(&kv["data"]);
+        let plain = if kv["plain"] == "?" { None } else { Some(crate::tx::unhex(&kv["plain"])) };
+        let kind: &'static str = match kv["kind"].as_str() { "laps" => "laps", "edge" => "edge", "valid" => "valid", "trailing" => "trailing", "truncated" => "truncated", _ => "corrupt" };
+        let enc = kv.get("enc").and_then(|e| e.parse::<usize>().ok());
+        ifb_session_enc(ctx, &z, kv["zlib"] == "1", kind, kv["past"].parse().unwrap_or(0), plain.as_deref(), kv["rep"].parse().unwrap_or(0), kv["seed"].parse().unwrap_or(1), enc); } }
+}
+
 pub fn run(ctx: &mut Ctx) {
     if let Some(lines) = ctx.replay_lines.clone() {
-        for l in &lines { if let Some(rest) = l.strip_prefix("IFBS ") { let kv = crate::kv(rest);
-            let z = crate::tx::unhex(&kv["data"]);
-            let plain = if kv["plain"] == "?" { None } else { Some(crate::tx::unhex(&kv["plain"])) };
-            let kind: &'static str = match kv["kind"].as_str() { "laps" => "laps", "edge" => "edge", "valid" => "valid", "trailing" => "trailing", "truncated" => "truncated", _ => "corrupt" };
-            ifb_session(ctx, &z, kv["zlib"] == "1", kind, kv["past"].parse().unwrap_or(0), plain.as_deref(), kv["rep"].parse().unwrap_or(0), kv["seed"].parse().unwrap_or(1)); } }
+        replay_ifbs(ctx, &lines);
         for l in lines { if let Some(rest) = l.strip_prefix("INFSEQ ") { let kv = crate::kv(rest);
             let kind: &'static str = match kv["kind"].as_str() { "valid" => "valid", "truncated" => "truncated", "corrupt" => "corrupt", _ => "trailing" };
             let s = S13 { z: crate::tx::unhex(&kv["data"]), zlib: kv["fmt"] == "1", plain: crate::tx::unhex(&kv["plain"]), enc_len: kv["enc"].parse().unwrap(), kind };
